@@ -10,7 +10,8 @@ programs have it (`C16.gen_*`).
 -/
 import Octave.Lemmas.Run
 import Octave.Spec.Register
-import Octave.Props.C16
+import Octave.Lemmas.Examples
+import Octave.Gen.WriteOps
 namespace Octave.C17
 open Octave
 
@@ -20,21 +21,21 @@ variable (H : Data → Hash)
 def toolStep (s : Stmt) (fs : Fs) (c : Call) : Out := exec H s c {} fs
 
 /-- Summary of a fault-free call. -/
-theorem toolStep_summary (s : Stmt) (c : Call) (fs : Fs) (hc : CallOK c fs) (hd : s.disciplined c.params = true) :
+theorem toolStep_summary (s : Stmt) (c : Call) (fs : Fs) (hc : CallOK c fs) (hd : s.disciplined .c17 c.params = true) :
     (toolStep H s fs c).st.fs c.tmpName = none ∧
     (∀ p, p ≠ c.target → p ≠ c.tmpName →
       (toolStep H s fs c).st.fs p = fs p ∨
         (p.isPrefixOf (parentOf c.target) = true ∧ fs p = none ∧ (toolStep H s fs c).st.fs p = some .dir)) ∧
     Reg.allowed H c (absReg c.target fs) (toolStep H s fs c).res (absReg c.target (toolStep H s fs c).st.fs) := by
-  have hp := exec_post H s c {} fs hc hd
-  have hcf := exec_cf H s c {} fs hc hd (fun _ => rfl)
-  have hnc := exec_not_crashed H s c {} fs hc hd rfl
+  have hp := exec_post .c17 H s c {} fs hc hd
+  have hcf := exec_cf .c17 H s c {} fs hc hd (fun _ => rfl)
+  have hnc := exec_not_crashed .c17 H s c {} fs hc hd rfl
   unfold toolStep
   unfold Post at hp
   generalize exec H s c {} fs = out at hp hcf hnc ⊢
   rcases out with ⟨res, st⟩
   simp only at hcf hnc hp ⊢
-  have herr : ∀ a, Inv H c fs a st.regs st.fs st.cf → a.errOk = true →
+  have herr : ∀ a, Inv .c17 H c fs a st.regs st.fs st.cf → a.errOk = true →
       st.fs c.tmpName = none ∧ st.fs c.target = fs c.target := by
     intro a hI h1
     refine ⟨?_, hI.tgt ?_⟩
@@ -63,7 +64,8 @@ theorem toolStep_summary (s : Stmt) (c : Call) (fs : Fs) (hc : CallOK c fs) (hd 
       · cases hres
     · simp only [hdry] at h2
       have h3 : a.tmp = .installed := by simpa using h2
-      obtain ⟨m, e1, e2, e3⟩ := hI.inst h3
+      obtain ⟨m, sy, e1, _, e3⟩ := hI.inst h3
+      have e3 := e3 rfl
       refine ⟨hI.tgone (Or.inr h3), hI.frame, ?_⟩
       refine ⟨fun h' hres _ => ?_, fun h' _ hd' => ?_, fun code hres => ?_, fun hres => ?_⟩
       · injection hres with hres
@@ -96,15 +98,52 @@ theorem toolStep_summary (s : Stmt) (c : Call) (fs : Fs) (hc : CallOK c fs) (hd 
     · cases hres
     · simp [absReg, Fs.dataAt, e2]
 
+/-- Error ⇒ clean, for the clauses C17 needs (same statement as `C16.C16_error_clean`). -/
+theorem error_clean (s : Stmt) (c : Call) (w : World) (fs : Fs) (hc : CallOK c fs)
+    (hd : s.disciplined .c17 c.params = true)
+    (herr : (∃ code, (exec H s c w fs).res = .err code) ∨ (exec H s c w fs).res = .raised)
+    (hcf : (exec H s c w fs).st.cf = false) :
+    (exec H s c w fs).st.fs c.target = fs c.target ∧
+    (exec H s c w fs).st.fs c.tmpName = none ∧
+    ∀ p, p ≠ c.target → p ≠ c.tmpName →
+      (exec H s c w fs).st.fs p = fs p ∨
+        (p.isPrefixOf (parentOf c.target) = true ∧ fs p = none ∧ (exec H s c w fs).st.fs p = some .dir) := by
+  have hp := exec_post .c17 H s c w fs hc hd
+  unfold Post at hp
+  generalize exec H s c w fs = out at hp herr hcf ⊢
+  rcases out with ⟨res, st⟩
+  have key : ∀ a, Inv .c17 H c fs a st.regs st.fs st.cf → a.errOk = true →
+      st.fs c.target = fs c.target ∧ st.fs c.tmpName = none ∧
+      ∀ p, p ≠ c.target → p ≠ c.tmpName →
+        st.fs p = fs p ∨ (p.isPrefixOf (parentOf c.target) = true ∧ fs p = none ∧ st.fs p = some .dir) := by
+    intro a hI h1
+    refine ⟨hI.tgt ?_, ?_, hI.frame⟩
+    · intro h; simp [Abs.errOk, h] at h1
+    · cases ht : a.tmp with
+      | none => exact (hI.tnone ht).2
+      | gone => exact hI.tgone (Or.inl ht)
+      | installed => simp [Abs.errOk, ht] at h1
+      | live =>
+        simp only [Abs.errOk, ht, Bool.or_eq_true, Bool.and_eq_true, decide_eq_true_eq, reduceCtorEq, false_or, true_and] at h1
+        have := hI.cfI h1
+        simp only at hcf
+        rw [hcf] at this
+        cases this
+  cases res with
+  | crashed => rcases herr with ⟨_, h⟩ | h <;> cases h
+  | ok h => rcases herr with ⟨_, h⟩ | h <;> cases h
+  | err code => obtain ⟨a, hI, h1, _⟩ := hp; exact key a hI h1
+  | raised => obtain ⟨a, hI, h1, _⟩ := hp; exact key a hI h1
+
 /-- **C17_step.**  A call refines one step of the register specification: with `base_hash = some h`
 and the file present, the file changes only if its text hashes to `h`; dry, failed and raising calls
 leave it alone; a success installs a text whose hash is the returned `canonical_hash`. -/
-theorem C17_step (s : Stmt) (c : Call) (fs : Fs) (hc : CallOK c fs) (hd : s.disciplined c.params = true) :
+theorem C17_step (s : Stmt) (c : Call) (fs : Fs) (hc : CallOK c fs) (hd : s.disciplined .c17 c.params = true) :
     Reg.allowed H c (absReg c.target fs) (toolStep H s fs c).res (absReg c.target (toolStep H s fs c).st.fs) :=
   (toolStep_summary H s c fs hc hd).2.2
 
 /-- A stale base_hash never installs (the CAS clause in its usual form). -/
-theorem C17_stale_rejected (s : Stmt) (c : Call) (fs : Fs) (hc : CallOK c fs) (hd : s.disciplined c.params = true)
+theorem C17_stale_rejected (s : Stmt) (c : Call) (fs : Fs) (hc : CallOK c fs) (hd : s.disciplined .c17 c.params = true)
     (d : Data) (m : Nat) (sy : Bool) (h : Hash) (hfile : fs c.target = some (.file d m sy))
     (hb : c.baseHash = some h) (hne : H d ≠ h) (hdry : c.dry = false) :
     (∀ h', (toolStep H s fs c).res ≠ .ok h') ∧ (toolStep H s fs c).st.fs c.target = fs c.target := by
@@ -113,12 +152,12 @@ theorem C17_stale_rejected (s : Stmt) (c : Call) (fs : Fs) (hc : CallOK c fs) (h
   rw [hreg] at ha
   have hno := Reg.stale_not_installed ha hb hne hdry
   refine ⟨hno, ?_⟩
-  have hcf := exec_cf H s c {} fs hc hd (fun _ => rfl)
-  have hnc := exec_not_crashed H s c {} fs hc hd rfl
+  have hcf := exec_cf .c17 H s c {} fs hc hd (fun _ => rfl)
+  have hnc := exec_not_crashed .c17 H s c {} fs hc hd rfl
   cases hres : (toolStep H s fs c).res with
   | ok h' => exact absurd hres (hno h')
-  | err code => exact (C16.C16_error_clean H s c {} fs hc hd (Or.inl ⟨code, hres⟩) hcf).1
-  | raised => exact (C16.C16_error_clean H s c {} fs hc hd (Or.inr hres) hcf).1
+  | err code => exact (error_clean H s c {} fs hc hd (Or.inl ⟨code, hres⟩) hcf).1
+  | raised => exact (error_clean H s c {} fs hc hd (Or.inr hres) hcf).1
   | crashed => exact absurd hres hnc
 
 /-! ### Histories of any length -/
@@ -138,7 +177,7 @@ def runHist (s : Stmt) (t : Path) : Fs → List HStep → Fs × List Result
 
 /-- Static side conditions on the calls of a history on target `t`. -/
 def CallStatic (s : Stmt) (t : Path) (c : Call) : Prop :=
-  c.target = t ∧ s.disciplined c.params = true ∧ c.tmpName ≠ t ∧
+  c.target = t ∧ s.disciplined .c17 c.params = true ∧ c.tmpName ≠ t ∧
   c.tmpName.isPrefixOf (parentOf t) = false ∧ t.isPrefixOf (parentOf t) = false
 
 def HistStatic (s : Stmt) (t : Path) : List HStep → Prop
@@ -203,10 +242,10 @@ theorem C17_history (s : Stmt) (t : Path) (steps : List HStep) :
 
 /-- **corrections_only changes nothing**: the file system after a dry call is the file system before. -/
 theorem C17_dry_unchanged (s : Stmt) (c : Call) (w : World) (fs : Fs) (hc : CallOK c fs)
-    (hd : s.disciplined c.params = true) (hdry : c.dry = true) (hw : w.crashAt = none) :
+    (hd : s.disciplined .c17 c.params = true) (hdry : c.dry = true) (hw : w.crashAt = none) :
     (exec H s c w fs).st.fs = fs := by
-  have hp := exec_post H s c w fs hc hd
-  have hnc := exec_not_crashed H s c w fs hc hd hw
+  have hp := exec_post .c17 H s c w fs hc hd
+  have hnc := exec_not_crashed .c17 H s c w fs hc hd hw
   unfold Post at hp
   generalize exec H s c w fs = out at hp hnc ⊢
   rcases out with ⟨res, st⟩
@@ -221,17 +260,50 @@ theorem C17_dry_unchanged (s : Stmt) (c : Call) (w : World) (fs : Fs) (hc : Call
 answers an error — or lets an exception escape — leaves the target node (bytes, mode), and every other
 path, exactly as they were, and no temp file; the only trace it may leave are directories that
 `mkdir -p` created above the target (F35: reachable only under injected faults, see notes/C17.md). -/
-theorem C17_error_unchanged (s : Stmt) (c : Call) (fs : Fs) (hc : CallOK c fs) (hd : s.disciplined c.params = true)
+theorem C17_error_unchanged (s : Stmt) (c : Call) (fs : Fs) (hc : CallOK c fs) (hd : s.disciplined .c17 c.params = true)
     (herr : (∃ code, (toolStep H s fs c).res = .err code) ∨ (toolStep H s fs c).res = .raised) :
     (toolStep H s fs c).st.fs c.target = fs c.target ∧ (toolStep H s fs c).st.fs c.tmpName = none ∧
     ∀ p, p ≠ c.target → p ≠ c.tmpName →
       (toolStep H s fs c).st.fs p = fs p ∨
         (p.isPrefixOf (parentOf c.target) = true ∧ fs p = none ∧ (toolStep H s fs c).st.fs p = some .dir) :=
-  C16.C16_error_clean H s c {} fs hc hd herr (exec_cf H s c {} fs hc hd (fun _ => rfl))
+  error_clean H s c {} fs hc hd herr (exec_cf .c17 H s c {} fs hc hd (fun _ => rfl))
+
+/-! ### The generated programs have the compare-and-swap discipline (re-proved whenever the source changes) -/
+
+set_option maxRecDepth 100000 in
+theorem gen_writeTool_cas_disciplined : Disciplined .c17 Gen.writeToolStmt := by decide
+
+set_option maxRecDepth 100000 in
+theorem gen_atomicWrite_cas_disciplined : DisciplinedW .c17 Gen.atomicWriteStmt := by decide
+
+set_option maxRecDepth 100000 in
+theorem gen_cliWrite_cas_disciplined : DisciplinedW .c17 Gen.cliWriteStmt := by decide
+
+/-- C17_history for WriteTool.execute as it is now. -/
+theorem C17_history_writeTool (t : Path) (steps : List HStep) (fs : Fs)
+    (hs : HistStatic Gen.writeToolStmt t steps) (hf : HistFresh fs steps) :
+    Reg.runs H (absReg t fs) steps (runHist H Gen.writeToolStmt t fs steps).2
+      (absReg t (runHist H Gen.writeToolStmt t fs steps).1) :=
+  C17_history H Gen.writeToolStmt t steps fs hs hf
+
+/-- Non-vacuity of `C17_history`: a history of three steps on the example file system — a stale write
+(refused), an external modification, a write with the then-current hash (accepted). -/
+def histEx : List HStep :=
+  [.call { target := [1, 2], tmpName := [1, 7], baseHash := some "stale".toList, canon := fun _ => "x".toList },
+   .ext (some "theirs".toList),
+   .call { target := [1, 2], tmpName := [1, 8], baseHash := some "theirs".toList, canon := fun _ => "mine".toList }]
+
+example : HistStatic Gen.writeToolStmt [1, 2] histEx ∧ HistFresh Ex.fsEx histEx := by
+  refine ⟨⟨⟨rfl, ?_, by decide, by decide, by decide⟩, ⟨rfl, ?_, by decide, by decide, by decide⟩, trivial⟩, by decide, by decide, trivial⟩
+  · exact gen_writeTool_cas_disciplined _ (allParams_complete _)
+  · exact gen_writeTool_cas_disciplined _ (allParams_complete _)
+
+example : (runHist Ex.Hid Gen.writeToolStmt [1, 2] Ex.fsEx histEx).2 = [.err .E_HASH, .ok "mine".toList] ∧
+    absReg [1, 2] (runHist Ex.Hid Gen.writeToolStmt [1, 2] Ex.fsEx histEx).1 = some "mine".toList := by decide
 
 /-! ### Two writers: the compare-and-swap is not atomic (F27) -/
 
-def fsEx : Fs := C16.fsEx
+def fsEx : Fs := Ex.fsEx
 def Hid : Data → Hash := fun d => d
 
 /-- Writers A and B hold the same base_hash (the hash of "old") for the same file. -/
